@@ -128,3 +128,42 @@ def check_C12(tier, seed):
     cases = [c for c in vmrun.run_scenarios(scns) if 'harness_error' not in c]
     engine.judge_cases(rep, cases, devs, what='aliasing program')
     return rep.finish()
+
+
+def check_C13(tier, seed):
+    rep = Report('C13', tier, seed)
+    devs = engine.open_deviations()
+    quick = tier == 'quick'
+    rep.notes['rule'] = ('TLC: every deterministic non-mutator of the table x all argument tuples (<= 2, some 3) from a universe of host '
+                         'lists/dicts/strings/numbers/flags/key functions + all two-stage pipelines of unary builtins (MC_C13): '
+                         'ArgsPreserved (action property on the builtin application step and on every own step of map/filter/reduce/'
+                         'sorted) and HostIntact; code: the same programs replayed + random calls incl. shuffle/rand/match*; the host '
+                         'objects are compared (contents and identity) after every call')
+    res = engine.model_check(rep, 'MC_C13.tla', 'MC_C13.cfg', timeout=900, coverage=not quick)
+    rep.exhaustive = True
+    engine.model_check(rep, 'MC_C13.tla', 'MC_C13.cfg', deviations=['MutSortedInPlace'], expect_violation=True, timeout=600)
+    _table_domain(rep)
+    if not rep.machinery:
+        engine.replay_emitted(rep, _emitted(res), devs, sample=2500 if quick else 9000, seed=seed, what='TLC scenario')
+    scns = families.nonmutator_calls(seed, 2500 if quick else 20000)
+    cases = [c for c in vmrun.run_scenarios(scns) if 'harness_error' not in c]
+    engine.judge_cases(rep, cases, devs, what='builtin call')
+    return rep.finish()
+
+
+SPEC_BUILTINS = ["len", "int", "float", "str", "dict", "list", "startswith", "endswith", "lower", "upper", "strip", "replace", "match",
+                 "match_groups", "match_all", "pretty", "keys", "values", "items", "sum", "get", "__getitem__", "__delitem__",
+                 "__setitem__", "__setitem_with_op__", "map", "filter", "reduce", "join", "split", "round", "floor", "ceil", "abs",
+                 "min", "max", "rand", "push", "pop", "insert", "remove", "sorted", "reversed", "enumerate", "shuffle", "index_of"]
+
+
+def _table_domain(rep):
+    """The domain of the specification's builtin table must be the key set of FUNCTIONS of the tree
+    under test; an entry unknown to the specification is exercised only relationally and reported."""
+    from .vmtrace import TRACER
+    impl = TRACER.install()
+    keys = set(impl['functions'].FUNCTIONS)
+    extra = sorted(keys - set(SPEC_BUILTINS))
+    missing = sorted(set(SPEC_BUILTINS) - keys)
+    rep.notes['builtin_table'] = {'entries': len(keys), 'unknown_to_spec': extra, 'absent_from_code': missing}
+    return extra, missing
